@@ -232,6 +232,12 @@ class ChangeScenario(Scenario):
                 opts = {k: v for k, v in s.items() if k not in ('id', 'script', 'subs', 'when_item')}
                 if isinstance(opts.get('errors'), str):
                     opts['errors'] = getattr(kopf.ErrorsMode, opts['errors'])
+                # criteria of sub-handlers, spelled JSON-ably: 'ABSENT' / 'PRESENT' markers, when='true' / 'false'
+                for crit in ('labels', 'annotations'):
+                    if isinstance(opts.get(crit), dict):
+                        opts[crit] = {k2: {'ABSENT': kopf.ABSENT, 'PRESENT': kopf.PRESENT}.get(v2, v2) if isinstance(v2, str) else v2 for k2, v2 in opts[crit].items()}
+                if isinstance(opts.get('when'), str):
+                    opts['when'] = (lambda verdict: (lambda **_: verdict))(opts['when'] == 'true')
                 kopf.subhandler(id=s['id'], **opts)(sfn)
             if hid in self.params.get('execute_first', []):
                 # the parent runs its sub-handlers explicitly and goes on afterwards (its own outcome comes after theirs)
